@@ -596,6 +596,22 @@ def _cumsum(ins, params):
 ARITH["cumsum"] = _cumsum
 
 
+# let-abstraction threshold (number of polynomial terms); None = always expand (exact normal form)
+DEF_THRESHOLD = None
+
+
+def _define_all(o):
+    thr = DEF_THRESHOLD
+    flat = o.a.reshape(-1)
+    if all(len(q.t) <= thr for q in flat):
+        return o
+    out = np.empty(o.a.shape, dtype=object)
+    of = out.reshape(-1)
+    for i, q in enumerate(flat):
+        of[i] = S.define(q, thr)
+    return Sym(out, "real", o.dtype)
+
+
 # ------------------------------------------------------------------ driver
 def run_jaxpr(jaxpr, consts, args):
     env = {}
@@ -648,6 +664,8 @@ def run_jaxpr(jaxpr, consts, args):
             raise Unsupported(f"collective {name} on symbolic operand")
         else:
             raise Unsupported(f"primitive {name} on symbolic operand")
+        if DEF_THRESHOLD is not None and anysym and name not in MOVE_PRIMS and name not in CALL_PRIMS:
+            outs = [_define_all(o) if (is_sym(o) and o.kind == "real") else o for o in outs]
         if len(outs) != len(eqn.outvars):
             raise Unsupported(f"{name}: produced {len(outs)} outputs, expected {len(eqn.outvars)}")
         for v, o in zip(eqn.outvars, outs):
